@@ -403,6 +403,9 @@ func (s *c15Sched) takeParked(tid uint64) chan struct{} {
 
 var c15HsFile, c15VtFile, c15HangFile *os.File
 
+// c15Hangs counts the hung cases of this process.
+var c15Hangs int
+
 func c15Side(f **os.File, name string, line string) {
 	if *f == nil {
 		var err error
@@ -662,8 +665,17 @@ func c15Debugged(c *c15Run, kill bool) (threads []*c15Thread, lg *memLog, rec *r
 		// stands in cond.Wait() although the debugger reports it as running (the lost resume),
 		// unchanged for a grace period. Without that evidence only a long time without any
 		// progress counts (the machine may be heavily loaded).
-		if time.Since(last) > 20*time.Second || (!stuckSince.IsZero() && time.Since(stuckSince) > 2*time.Second) {
+		// (once several cases of this process have hung the tree is broken anyway: shorter patience, so
+		// that a run with hundreds of hanging cases stays within minutes)
+		patience := 20 * time.Second
+		if c15Hangs >= 10 {
+			patience = 1500 * time.Millisecond
+		} else if c15Hangs >= 3 {
+			patience = 4 * time.Second
+		}
+		if time.Since(last) > patience || (!stuckSince.IsZero() && time.Since(stuckSince) > 2*time.Second) {
 			hang = true
+			c15Hangs++
 			buf := make([]byte, 1<<20)
 			buf = buf[:runtime.Stack(buf, true)]
 			c15Side(&c15HangFile, "c15-hang", c.payload+"\n"+string(buf))
